@@ -223,6 +223,73 @@ fn read_wal(img: &[u8]) -> WalRead {
 }
 
 // ---------------------------------------------------------------------------------------------
+// huge payloads: a separate short list (round trip only)
+// ---------------------------------------------------------------------------------------------
+
+/// Every size at which a length field or a sanity limit could change class: 64 KiB and 1 MiB boundaries, 3 MiB.
+const HUGE_SIZES: &[usize] = &[65_535, 65_536, (1 << 20) - 1, (1 << 20) + 1, 3 << 20];
+
+fn huge_roundtrips(thorough: bool) -> (Vec<Found>, u64) {
+    let same = |a: &ReplicationDelta, b: &ReplicationDelta| imgx::canon(a) == imgx::canon(b);
+    let sizes: Vec<usize> = HUGE_SIZES.iter().copied().filter(|s| thorough || *s <= (1 << 20) + 1).collect();
+    let items: Vec<(usize, &'static str)> = sizes.iter().flat_map(|s| [(*s, "string"), (*s, "hash")]).collect();
+    let results: Vec<Vec<Found>> = vh::par::par_map(&items, |_, (size, what)| {
+        let (size, what) = (*size, *what);
+        let mut found = Vec::new();
+        let payload: Vec<u8> = (0..size).map(|i| (i * 31 % 251) as u8).collect();
+        let r1 = redis_sim::replication::lattice::ReplicaId::new(1);
+        let d: ReplicationDelta = if what == "string" {
+            imgx::lww_delta("kbig", &payload, 7, 1)
+        } else {
+            // a hash with one huge and one small field
+            let mut hv = ReplicatedValue::new(r1);
+            let mut clock = redis_sim::replication::lattice::LamportClock { time: 3, replica_id: r1 };
+            hv.hash_set("big".to_string(), redis_sim::redis::SDS::new(payload.clone()), &mut clock);
+            hv.hash_set("small".to_string(), redis_sim::redis::SDS::new(b"x".to_vec()), &mut clock);
+            ReplicationDelta::new("hbig".to_string(), hv, r1)
+        };
+        // the small delta that follows must survive too (a reader that gives up at the big one hides it)
+        let tail = imgx::lww_delta("after", b"t", 9, 1);
+        let batch = vec![d.clone(), tail.clone()];
+        let mut bad = |enc: &str, why: String| {
+            found.push(Found {
+                sig: format!("roundtrip {enc} huge-payload: {}", why.split(':').next().unwrap_or("differs")),
+                detail: format!("{what} payload of {size} bytes followed by a small update through {enc}: {why}"),
+                replay: json!({"part": "huge", "size": size, "what": what, "encoding": enc}),
+            })
+        };
+        match encode_wal(&batch).and_then(|img| read_wal(&img)) {
+            Ok(r) if r.len() == 2 && same(&r[0].3, &d) && same(&r[1].3, &tail) => {}
+            Ok(r) => bad("wal", format!("decoded-different-data: {} of 2 entries came back{}", r.len(), if r.len() == 2 { " altered" } else { "" })),
+            Err(e) => bad("wal", format!("error: {e}")),
+        }
+        match encode_segment(&batch).and_then(|img| read_segment(&img)) {
+            Ok((_, _, _, ds)) if ds.len() == 2 && same(&ds[0], &d) && same(&ds[1], &tail) => {}
+            Ok((_, _, _, ds)) => bad("segment", format!("decoded-different-data: {} of 2 records came back", ds.len())),
+            Err(e) => bad("segment", format!("error: {e}")),
+        }
+        let state = vec![(d.key.clone(), d.value.clone()), (tail.key.clone(), tail.value.clone())];
+        match encode_checkpoint(&state, 1_000, 4).and_then(|img| read_checkpoint(&img)) {
+            Ok((_, _, _, m)) if m.len() == 2 && m.get(&d.key).map(imgx::canon) == Some(imgx::canon(&d.value)) => {}
+            Ok((_, _, _, m)) => bad("checkpoint", format!("decoded-different-data: {} of 2 entries came back", m.len())),
+            Err(e) => bad("checkpoint", format!("error: {e}")),
+        }
+        let msg = make_msg("DeltaBatch", batch.clone(), 1);
+        match msg.serialize().map_err(|e| e.to_string()).and_then(|b| GossipMessage::deserialize(&b).map_err(|e| e.to_string())) {
+            Ok(back) => {
+                if imgx::canon(&back) != imgx::canon(&msg) {
+                    bad("gossip", "decoded-different-data: message differs after the round trip".to_string());
+                }
+            }
+            Err(e) => bad("gossip", format!("error: {e}")),
+        }
+        found
+    });
+    let n = 4 * items.len() as u64;
+    (results.into_iter().flatten().collect(), n)
+}
+
+// ---------------------------------------------------------------------------------------------
 // comparison of what was read with what was written
 // ---------------------------------------------------------------------------------------------
 
@@ -816,6 +883,12 @@ fn main() {
     for f in others {
         rep.violation(f.sig, f.detail, f.replay);
     }
+
+    let (huge_found, huge_count) = huge_roundtrips(thorough);
+    for f in huge_found {
+        rep.violation(f.sig, f.detail, f.replay);
+    }
+    rep.note(format!("huge payloads: {huge_count} round trips of strings / hash fields of up to {} bytes (sizes {:?}, the largest in the thorough tier only) through the 4 encodings", if thorough { 3 << 20 } else { (1 << 20) + 1 }, HUGE_SIZES));
 
     let t_roundtrip = rep.elapsed_s();
     // ---- part 2: damage -----------------------------------------------------------------
